@@ -131,6 +131,10 @@ purity re-check of the run. -/
 
 /-! ### clause (a) end to end: the sender's transaction, the scan, the recovery -/
 
+/-- the hypotheses of `C09_sender_tx_recover` are those of `C07_sender_tx_reported` (satisfiability: the `example`s next to it in
+Props/C07.lean — the sender's key alone is a well-formed extra; a lawful instance exists) plus `S = s•G`, which every wallet satisfies -/
+example (s : ℕ) : ∃ S : Monero.Edw.EdPoint, S = s • Monero.Edw.edOps.base := ⟨_, rfl⟩
+
 /-- **From the sender's bytes to the recovered key.** Hypotheses of `C07_sender_tx_reported` (the sender writes the extra field
 `TxPublicKey(K) :: rest`, `K = txKey r dest + T` with `T` any small-order point, for the wallet's address `dest` at an in-range index
 `(i, j)`, and the output at position `n` with the by-the-book one-time key, tagged or not) and `S = s•G`: an `Ok` scan reports an output
@@ -244,6 +248,10 @@ example : BaseOk none ∧ BaseOk (some ⟨5, 0, [], [.bp (List.replicate 8 0), .
   rcases he with rfl | rfl
   · show (List.replicate 8 (0 : UInt8)).length ≤ 8; decide
   · trivial
+
+/-- the remaining hypotheses of `C09_driver_refines` are satisfiable: the base point is a valid representative, every reduced scalar is
+below 2^260 -/
+example : Valid Ed.G ∧ Ed.l < 2 ^ 260 := ⟨G_valid, l_lt_260⟩
 
 /-- **the driver's scan and the driver's scalars are the theorems' scan and scalars.** For a view secret below 2^260 (every 32-byte
 scalar) the executable instance `Drv.refOps` with the executable permissive decoder (`Drv.C07.decP` = `Drv.C10.decPerm`) computes
